@@ -11,6 +11,7 @@ Leg C: oracle = the property's predicates evaluated in Python from the generator
        invocation (names, order, exactly-once, method per type, value identity, sigil texts, Empty/unset/undeclared
        not visited, evaluation counters 0 when disabled / 1 when enabled)."""
 import json
+import re
 import os
 import struct
 import sys
@@ -259,7 +260,7 @@ def expected_post(case, t, r, names):
     return out
 
 
-STATIC_FEATURE_CAP = 3      # harness feature `static_info` = tracing/max_level_info
+STATIC_FEATURE_CAP = 3      # harness/fields_static depends on tracing with feature max_level_info
 
 
 def guard_of(mode, level, static=5):
@@ -636,6 +637,48 @@ def describe(t):
     return {"id": t.id, "group": t.group, "rust": C.rust_of(t).strip().split("\n")[1:-1]}
 
 
+ARM_RX = re.compile(r"\(\(PItem \(mk_shape (K\w+) (true|false) (S\w+)\) (true|false)\)|\(PRest,")
+
+
+def arms_of(gen_text, name):
+    """[(key, valued, sigil, more) | 'PRest'] of a generated arm table"""
+    i = gen_text.index("Definition %s " % name)
+    j = gen_text.index("].", i)
+    out = []
+    for m in ARM_RX.finditer(gen_text[i:j]):
+        out.append("PRest" if m.group(1) is None else (m.group(1), m.group(2) == "true", m.group(3), m.group(4) == "true"))
+    return out
+
+
+def arms_hit(t):
+    """which valueset! / fieldset! arm patterns the template's field list reaches (by the shape of each field and whether
+    something follows it), from the generator's description"""
+    vs, fs = set(), set()
+    if t.kind == "enabled":
+        for it in t.items:
+            fs.add(("KPath", False, "SNone", True))
+        return vs, fs
+    lists = [(t.items, t.trailing, t.fmt, t.brace)] + [(op["items"], False, None, False) for op in t.post if op["op"] == "record_all"]
+    for k, (items, trailing, fmt, brace) in enumerate(lists):
+        n = len(items)
+        for i, it in enumerate(items):
+            key = {"lit": "KLit", "const": "KConst"}.get(it["nk"], "KPath") if it["form"] == "kv" else "KPath"
+            shape = (key, it["form"] == "kv", SIG[it["sigil"]])
+            last = i == n - 1
+            more = (not last) or (trailing if (brace or fmt is None) else True)
+            vs.add(shape + (more,))
+            if k == 0:
+                fs.add(shape + (True,))            # fieldset!'s entry arm appends a comma
+        if fmt is not None:
+            if brace:
+                vs.add(("KPath", True, "SNone", True if items else True))      # message = format_args!(..), <fields>
+                fs.add(("KPath", True, "SNone", True))
+            else:
+                vs.add("PRest")
+                fs.add("PRest")
+    return vs, fs
+
+
 def load_regressions(tpls):
     """corpus/C10/regressions.json: minimised (template, collector, round) cases that once exposed a defect or killed a
     mutant.  A template is named by its Rust text (ids move when the generator grows)."""
@@ -684,6 +727,20 @@ def run(ctx):
     tpls = C.build()
     write_corpus(tpls)
     by_id = {t.id: t for t in tpls}
+    # the corpus must reach every arm the translator found (a new or split arm nobody exercises would otherwise go unnoticed)
+    try:
+        vs_hit, fs_hit = set(), set()
+        for t in tpls:
+            a, b = arms_hit(t)
+            vs_hit |= a
+            fs_hit |= b
+        missing = [("valueset!", a) for a in arms_of(text, "gen_valueset_arms") if a not in vs_hit] + \
+                  [("fieldset!", a) for a in arms_of(text, "gen_fieldset_arms") if a not in fs_hit]
+        rep.tie("corpus-reaches-every-valueset!/fieldset!-arm", not missing, "%d arms not exercised" % len(missing), [str(m) for m in missing[:3]] or None)
+        rep.count("arms:valueset", len(arms_of(text, "gen_valueset_arms")))
+        rep.count("arms:fieldset", len(arms_of(text, "gen_fieldset_arms")))
+    except ValueError as ex:
+        rep.tie("corpus-reaches-every-valueset!/fieldset!-arm", False, "cannot read the generated arm tables: %s" % ex)
     # ---- leg A
     rep.proof = coq_prove(ctx, "C10", ["theories/Properties/C10.vo", "theories/Fields/Encode.vo"])
     # ---- implementation
@@ -708,8 +765,8 @@ def run(ctx):
         log_plans.append(["ndmax4:2:9", "ndoff:2", "ndon:%d" % R, "sometimes:2:3", "cap0:1"])
     runs = []             # (profile, plan index, plan, output, static cap)
 
-    def build_and_run(binname, features, rel, plist, static):
-        ok, paths, log = cargo_build(ctx, "fields", [binname], release=rel, features=features)
+    def build_and_run(binname, pkg, rel, plist, static):
+        ok, paths, log = cargo_build(ctx, pkg, [binname], release=rel)
         tag = binname + ("-release" if rel else "")
         if not ok:
             rep.tie("build:" + tag, False, vlib.last_error(log))
@@ -728,7 +785,7 @@ def run(ctx):
                 if rc != 0:
                     rep.tie("run:corpus", False, "rc=%d %s" % (rc, vlib.last_error(out)))
                     continue
-                runs.append(("corpus" + ("-log" if binname.endswith("_log") else ""), 0, [e["mode"]], out, static))
+                runs.append(("corpus" + ("-static" if static < 5 else "") + ("-log" if binname.endswith("_log") else ""), 0, [e["mode"]], out, static))
         for pi, plan in enumerate(plist):
             rc, out = run_bin(paths[binname], [data_path] + plan, timeout=900)
             if rc != 0:
@@ -739,11 +796,11 @@ def run(ctx):
         return True
 
     for rel in [False] + ([True] if ctx.thorough() else []):
-        if not build_and_run("h_fields", None, rel, plans, 5):
+        if not build_and_run("h_fields", "fields", rel, plans, 5):
             return rep
-    if not build_and_run("h_fields_static", ["static_info"], False, static_plans, STATIC_FEATURE_CAP):
+    if not build_and_run("h_fields_static", "fields_static", False, static_plans, STATIC_FEATURE_CAP):
         return rep
-    if not build_and_run("h_fields_log", ["with_log"], False, log_plans, 5):
+    if not build_and_run("h_fields_log", "fields_log", False, log_plans, 5):
         return rep
     # ---- oracle over every observation
     case = None
@@ -827,7 +884,7 @@ def run(ctx):
                                "replay_cmd": "%s <data> --only %d %s:1:%d   (data = seed %d, R = %d)" % (binname, t.id, mode, rec["r"], ctx.seed, R)})
             # choose cases for the model: every template under `always` at two rounds + a seeded sample of everything else
             key = (t.id, rec["r"], mode, static, logbuild)
-            if prof in ("debug", "debug-static", "debug-log", "corpus", "corpus-log") and key not in model_cases:
+            if (prof in ("debug", "debug-static", "debug-log") or prof.startswith("corpus")) and key not in model_cases:
                 if logbuild:
                     take = n_log < n_log_target and ctx.rng.random() < 0.2
                     n_log += take
